@@ -1,7 +1,7 @@
 """Property -> job sets, attribution rules, bounds."""
 
-CODEC_FAMS_Q = ['scalar', 'list', 'map']
-CODEC_FAMS_T = ['scalar', 'list', 'map']
+CODEC_FAMS_Q = ['scalar', 'list', 'map', 'default', 'nocopy', 'unknown', 'ids', 'nest']
+CODEC_FAMS_T = CODEC_FAMS_Q
 
 JOBSETS = {
     'codec': {
@@ -21,19 +21,27 @@ JOBSETS['bytes'] = {
 }
 
 JOBSETS['decmsg'] = {
-    'gen': {'families': {'quick': ['evolve', 'required'], 'thorough': ['evolve_full', 'required']}, 'bounds': {'quick': '1,1,1,2', 'thorough': '2,2,1,2'}},
-    'kinds': ['decmsg'],
+    'gen': {'families': {'quick': ['evolve', 'required', 'default', 'nocopy'], 'thorough': ['evolve_full', 'required', 'default', 'nocopy']}, 'bounds': {'quick': '1,1,1,2', 'thorough': '2,2,1,2'}},
+    'kinds': ['decmsg', 'hop'],
     'cfg': {'quick': {'timeout_s': 300, 'solver_timeout_ms': 10000}, 'thorough': {'timeout_s': 3000, 'solver_timeout_ms': 60000}},
     'wall': {'quick': 1500, 'thorough': 7200},
 }
 
 PROPS = {
-    'C03': {'jobsets': ['decmsg', 'bytes'], 'phases': ['decode']},
-    'C05': {'jobsets': ['bytes'], 'phases': ['decode']},
     'C01': {'jobsets': ['codec'], 'phases': ['decode']},
     'C02': {'jobsets': ['codec'], 'phases': []},
+    'C03': {'jobsets': ['decmsg', 'bytes'], 'phases': ['decode'], 'job_filter': r'^(decmsg|bytes)/'},
     'C04': {'jobsets': ['codec'], 'phases': ['encode']},
-    'C16': {'jobsets': ['codec'], 'phases': []},
+    'C05': {'jobsets': ['bytes'], 'phases': ['decode']},
+    'C09': {'jobsets': ['decmsg', 'bytes', 'codec'], 'phases': [], 'job_filter': r'Rq|By_unk|ScA_|ScD_|Id(Lo|Mid|Hi)',
+            'also_labels': r'^(C03 a well-formed|C03 every transmitted|C05 DecodeObject succeeds|C02 bytes equal)'},
+    'C10': {'jobsets': ['codec', 'decmsg'], 'phases': [], 'job_filter': r'Df|ScD_|LeafD|NsB',
+            'also_labels': r'^(C01 round trip|C02 bytes equal|C04 EncodedSize|C03 every transmitted)'},
+    'C11': {'jobsets': ['decmsg', 'codec', 'bytes'], 'phases': [], 'job_filter': r'hop/|MinusH|Retyped|Renum|TOut|Uk|By_unk',
+            'also_labels': r'^(C03 every transmitted|C03 a well-formed|C01 round trip|C02 bytes equal|C04 EncodedSize)'},
+    'C14': {'jobsets': ['decmsg', 'codec'], 'phases': [], 'job_filter': r'Nc',
+            'also_labels': r'^(C03 every transmitted|C01 round trip|C06 does not overlap the input)'},
+    'C16': {'jobsets': ['codec', 'decmsg'], 'phases': []},
 }
 
 _CODEC_NOTE = ('Trusted: go/ssa lowering, gc/amd64 layout from go/types, the environment models of reflect/sync/fmt/runtime.mallocgc '
